@@ -38,6 +38,7 @@ def run(ctx):
     ctx.assume("MockProvider flavours are the environment", "virtual clock; ageing 0",
                "a 'disconnected' fault really disconnects the provider object; steps are the managers' do() bodies")
     ctx.model_check("SysMC", "MC_SysMC.cfg", "design: contract guards", workers=4)
+    sc.run_exemplars(ctx, CLAUSES, extra_sig=xsig)
     quick = ctx.tier == "quick"
     flavors = ["oid/oid", "path/oidf"] if quick else ["oid/oid", "path/oidf", "oidf/path", "path/path"]
     base = sc.generate(ctx, "f_one", [1], 2, GAPS, "std") + sc.generate(ctx, "f_oneR", [2], 2, GAPS, "std")
